@@ -78,6 +78,15 @@ func verifAssertClass(c bool, label, class string) {
 	}
 }
 
+// verifAssertPossible: the condition must be satisfiable on this path (used for
+// "fresh per connection": two values are not forced to be equal). Natively, and
+// in the engine's concrete mode, it fails iff the condition is false.
+func verifAssertPossible(c bool, label, class string) {
+	if !c {
+		verifNS.failed = append(verifNS.failed, label)
+	}
+}
+
 func verifFail(label, class string) { verifNS.failed = append(verifNS.failed, label) }
 
 func verifReach(label string) { verifNS.reached = append(verifNS.reached, label) }
